@@ -1270,22 +1270,32 @@ func build(tier string) []*vkit.Scenario {
 	hPool := []hexec{{ekit.LT, "pool", true}}
 	hOther := []hexec{{ekit.ET, "inline", false}, {ekit.ONESHOT, "go", false}, {ekit.LT, "go", true}}
 	mixedCases := []hcase{{nil, "none", true}, {nil, "accept", true}, {h("accept"), "none", true}}
+	// light(cs, true): the cases whose racer does not multiply the interleavings too much;
+	// light(cs, false): the others (peer traffic / one more accepted connection racing with Stop)
+	light := func(cs []ccase, want bool) []ccase {
+		var out []ccase
+		for _, c := range cs {
+			heavy := c.racer == "fin" || c.racer == "data" || c.racer == "accept"
+			if heavy != want {
+				out = append(out, c)
+			}
+		}
+		return out
+	}
 	poolQuick := []hcase{{nil, "none", false}, {nil, "none", true}, {h("inject"), "none", false}, {h("inject"), "blocked", false}, {h("request"), "none", false}, {h("accept"), "none", true}}
 	if !thorough {
 		core(cheapE, singles, "stop", 2, false)
-		core(midE, singles, "stop", 2, false)
-		core(heavyE, singles, "stop", 1, false)
-		core(fewE, doubles, "stop", 2, false)
+		core(midE, light(singles, true), "stop", 2, false)
+		core(midE, light(singles, false), "stop", 1, false)
+		core(heavyE[:2], singles, "stop", 1, false)
+		core(heavyE[2:], light(singles, true), "stop", 1, false)
+		core(fewE, light(doubles, true), "stop", 2, false)
+		core(fewE, light(doubles, false), "stop", 1, false)
 		core(fewE[:2], shutdownCases, "shutdown-bg", 2, false)
-		core(fewE[:2], shutdownCases, "shutdown-ctx", 2, false)
+		core(fewE[:1], shutdownCases, "shutdown-ctx", 2, false)
 		core(fewE, singles, "stop", 1, true)
-		var light []ccase
-		for _, c := range singles {
-			if !(len(c.hist) == 1 && c.hist[0] == "accept" && (c.racer == "fin" || c.racer == "data")) {
-				light = append(light, c)
-			}
-		}
-		core(fewE[:1], light, "stop", 2, true)
+		core(fewE[:1], light(singles, true), "stop", 2, true)
+		core(fewE[:1], []ccase{{nil, "accept", 1}}, "stop", 2, true)
 		httpS(hCheap, hsingles, "nb", "stop", 2, false)
 		httpS(hCheap, hsingles, "nb", "shutdown-bg", 2, false)
 		httpS(hCheap[:2], hsingles[:8], "nb", "shutdown-ctx", 2, false)
@@ -1297,6 +1307,8 @@ func build(tier string) []*vkit.Scenario {
 		httpS(hCheap[:2], hsingles, "nb", "stop", 1, true)
 		return out
 	}
+	// thorough: one more preemption everywhere it is affordable; the families whose interleaving
+	// count explodes (a second connection plus peer traffic) stay at the quick bound
 	core(cheapE, singles, "stop", 3, false)
 	core(cheapE, extraSingles, "stop", 3, false)
 	core(midE, singles, "stop", 3, false)
@@ -1304,7 +1316,8 @@ func build(tier string) []*vkit.Scenario {
 	core(cheapE, doubles, "stop", 3, false)
 	core(midE, doubles, "stop", 2, false)
 	core(heavyE[:2], doubles, "stop", 2, false)
-	core(fewE, triples, "stop", 3, false)
+	core(fewE, light(triples, true), "stop", 3, false)
+	core(fewE, light(triples, false), "stop", 2, false)
 	core(midE, triples, "stop", 2, false)
 	core(heavyE[:1], triples, "stop", 2, false)
 	core(cheapE, shutdownCases, "shutdown-bg", 3, false)
@@ -1312,18 +1325,22 @@ func build(tier string) []*vkit.Scenario {
 	core(cheapE, singles, "stop", 2, true)
 	core(midE, singles, "stop", 1, true)
 	core(fewE, doubles, "stop", 1, true)
-	allH := append(append([]hexec{}, hCheap...), hOther...)
-	httpS(allH, hsingles, "nb", "stop", 3, false)
-	httpS(allH, hsingles, "nb", "shutdown-bg", 3, false)
+	allH := append(append([]hexec{}, hCheap...), hOther[:2]...)
+	httpS(hCheap, hsingles, "nb", "stop", 3, false)
+	httpS(hOther[:2], hsingles, "nb", "stop", 2, false)
+	httpS(hOther[2:], hsingles, "nb", "stop", 2, false)
+	httpS(hCheap, hsingles, "nb", "shutdown-bg", 3, false)
+	httpS(hOther, hsingles, "nb", "shutdown-bg", 2, false)
 	httpS(allH, hsingles, "nb", "shutdown-ctx", 2, false)
-	httpS(allH, hdoubles, "nb", "stop", 3, false)
-	httpS(hPool, hsingles, "nb", "stop", 2, false)
-	httpS(hPool, hsingles, "nb", "shutdown-bg", 2, false)
-	httpS(hPool, hdoubles, "nb", "stop", 2, false)
-	httpS(hCheap[1:2], mixedCases, "mixed", "stop", 2, false)
-	httpS(hCheap[1:2], mixedCases, "mixed", "shutdown-bg", 2, false)
-	httpS(hPool, mixedCases[:2], "mixed", "stop", 1, false)
-	httpS(hCheap, hsingles, "nb", "stop", 2, true)
+	httpS(allH, hdoubles, "nb", "stop", 2, false)
+	httpS(hPool, poolQuick, "nb", "stop", 2, false)
+	httpS(hPool, poolQuick, "nb", "shutdown-bg", 2, false)
+	httpS(hPool, hsingles, "nb", "stop", 1, false)
+	httpS(hPool, hsingles, "nb", "shutdown-bg", 1, false)
+	httpS(hCheap[1:2], mixedCases, "mixed", "stop", 1, false)
+	httpS(hCheap[1:2], mixedCases, "mixed", "shutdown-bg", 1, false)
+	httpS(hCheap[:1], hsingles, "nb", "stop", 2, true)
+	httpS(hCheap[1:], hsingles, "nb", "stop", 1, true)
 	return out
 }
 
